@@ -29,6 +29,34 @@ claim("C18", "exploration",
       "runtime monitoring: UBSan-instrumented execution of the real header vs reference set semantics "
       "(exhaustive for int8_t)")
 
+claim("C01", "exploration",
+      "hostile inputs for every parsing entry point x syntax switch x back end, each in a forked ASan+UBSan+"
+      "_GLIBCXX_ASSERTIONS child (and a sample in the assert-enabled build); deterministic step clock for the "
+      "termination/time clauses over scaling families; libFuzzer campaigns whose artifacts are re-keyed in the driver",
+      "sanitizers see only executed paths; libxml2/libstdc++ uninstrumented; a std::exception is an allowed outcome",
+      "runtime monitoring: sanitizer/assertion reports of instrumented executions under generated hostile "
+      "workloads + coverage-guided fuzzing + logical step budget")
+claim("C03", "exploration",
+      "every accepted generated expression (typed and raw) and every query form is printed by the library, re-parsed "
+      "in the same scope and compared (dump and second print); failures are shrunk to the smallest construct",
+      "self-consistency oracle (first parse vs parse of printed text); generators cover operators, not all programs",
+      "runtime monitoring: print/re-parse round-trip monitor over recorded trees (sanitizer build)")
+claim("C04", "exploration",
+      "random accepted abstract models rendered to XML (shuffled labels, random ids) and compared field by field with "
+      "the document at builder level and after static analysis, through parse_XML_buffer/file/fd",
+      "generator covers the constructs listed in the evidence rule; abstract model is the oracle",
+      "runtime monitoring: reference-model comparison of the built Document (generated models, sanitizer build)")
+claim("C05", "exploration",
+      "the same abstract model rendered to XML and to XTA; canonical documents, diagnostics and supported-method "
+      "verdicts of both front ends compared, including models with one injected semantic error",
+      "only constructs expressible in both formats; actname excluded (no XTA syntax)",
+      "runtime monitoring: differential comparison of two front ends on generated models (sanitizer build)")
+claim("C08", "exploration",
+      "the invariant walker (harness/invariants.cpp) visits every reachable object after every parse of valid, "
+      "error-recovered and exception-ending inputs, under ASan so that dangling user-data pointers are reports",
+      "public API traversal only; LSC-specific containers are not walked",
+      "runtime monitoring: structural invariant walker at quiescent points after each parse (sanitizer build)")
+
 
 def main():
     props = [json.loads(l) for l in open(os.path.join(VERIF, "properties.jsonl"))]
